@@ -166,14 +166,17 @@ struct Driver {
    const ipr::Expr_list& xl(const std::string& t) { return need(t, [](Val v) { return v.xlist; }); }
    const ipr::Template& tm(const std::string& t) { return need(t, [](Val v) { return v.tmpl; }); }
 
-   static std::u8string word(const std::string& tok)
+   // every spelling reaches the library through ONE reused token buffer (as in a lexer): same address, not NUL-terminated
+   static util::word_view word(const std::string& tok)
    {
       if (tok.rfind("x:", 0) != 0) throw Bad("bad word " + tok);
-      std::u8string w;
+      static std::u8string buffer;
+      if (buffer.capacity() < (4u << 20)) buffer.reserve(4u << 20);
       std::string h = tok.substr(2);
-      if (h == "-") return w;
-      for (size_t i = 0; i + 1 < h.size(); i += 2) w += char8_t(std::stoi(h.substr(i, 2), nullptr, 16));
-      return w;
+      std::size_t n = h == "-" ? 0 : h.size() / 2;
+      buffer.assign(n + 8, char8_t('#'));                 // followed by junk, never by a NUL
+      for (size_t i = 0; i < n; ++i) buffer[i] = char8_t(std::stoi(h.substr(2 * i, 2), nullptr, 16));
+      return util::word_view(buffer.data(), n);
    }
    std::vector<std::string> seq_tokens(const std::string& tok)
    {
